@@ -355,7 +355,7 @@ pub fn generate(rng: &mut Rng, thorough: bool, w: &mut CaseWriter) {
         let f = c12_files::gzi_file(rng);
         let f = maybe_malform(rng, &f);
         push3(w, rng, "gzir", f, &raw_caps);
-        let f = c12_files::bai_file(rng);
+        let f = c12_files::bai_file_small(rng);
         let f = maybe_malform(rng, &f);
         push3(w, rng, "bair", f, &raw_caps);
         let crlf = rng.chance(1, 3);
